@@ -50,8 +50,8 @@ def check(ctx, rep):
     from .. import roles as _roles
     nwalk = _roles.iteration_rule(ctx, rep, _roles.Queue(ctx, li.owner, field=JF), "R-GUARDED")
     rep.count("walks over the timeout job list", nwalk, 1)
-    nreb = _roles.rebuild_rule(ctx, rep, li.owner, JF, "R-GUARDED", "the timeout job list")
-    rep.count("rebuilds of the timeout job list", nreb, 1)
+    nreb, nin = _roles.shrink_rule(ctx, rep, li.owner, JF, "R-GUARDED", "the timeout job list")
+    rep.count("places where finished jobs leave the timeout job list (rebuild or in-place removal)", nreb + nin, 1)
 
     # ------------------------------------------------------------------ submit path
     st = tex.methods.get("submit_timeout")
@@ -78,6 +78,13 @@ def check(ctx, rep):
         rep.ob("R-DEADLINE", "submit_timeout: deadline = now + this call's timeout", ok, "record fields: %s" % dict((k, fmt(v)) for k, v in fields.items()), where_of(st), trace_of(p))
         if dls:
             dl_field = dls[0][0]
+        if ok and len(subs) == 1:
+            # "creation time plus timeout": the clock is read once the future exists -- after the delegate's submit
+            # has returned (which may block or be slow) and after the shutdown gate was entered.  A reading from
+            # before that makes the deadline earlier than creation + timeout, i.e. an early cancel.
+            ck = dls[0][1][2] if is_clock(dls[0][1][2]) else dls[0][1][3]
+            rd = [e for e in p.calls() if q.result_of(e) == ck]
+            rep.ob("R-DEADLINE", "submit_timeout: the clock is read after the future was created", bool(rd) and rd[-1].seq > subs[0].seq, "the deadline's clock reading is taken before this call's delegate submit: time spent waiting for the executor or inside a slow delegate.submit() is cut off the timeout, so the future can be cancelled before creation time + timeout", where_of(st, rd[-1].node) if rd else where_of(st), trace_of(p, rd[-1].seq if rd else None))
         futs = [f for f, v in fields.items() if v == p.value]
         rep.ob("R-DEADLINE", "submit_timeout: the record links the returned future with this submission's delegate future", len(futs) == 1 and _built_on(p, it, p.value, subs), "record fields: %s; returns %s" % (dict((k, fmt(v)) for k, v in fields.items()), fmt(p.value)), where_of(st), trace_of(p))
         if futs:
